@@ -1,0 +1,10 @@
+//go:build verif
+
+// Contracts for package token, read by the verification engine in /verif (twv).
+// Comments only; compiled only with the build tag "verif".
+package token
+
+//@ func LongestDirective
+//@   ensures result >= 0
+//@   modifies nothing
+//@   loop 0: invariant longest >= 0
